@@ -48,6 +48,8 @@ POOL = ["$", "@", "#", "~", "^", "|", "&", "%", ";", "{", "}", "$$", "@@", "%%",
 CTX = {"a": 1, "s": "abc", "l": [1, "a", None], "o": {"a": 1, "b": {"c": 2}}, "k": "a"}
 
 _ENVS = {}
+# a third environment in which every identifier is spelled differently from the default (and from most of the pool)
+ALT_ASSIGN = {"root": "\u00a7", "self": "\u00a4", "key": "\u00b6", "ctx": "\u00a3", "keys": "\u00b1", "fake": "\u00ac", "union": "\u00a6", "inter": "\u00d7"}
 
 
 def make_env(assign):
@@ -58,6 +60,9 @@ def make_env(assign):
         if len(_ENVS) > 400:
             _ENVS.pop(next(iter(_ENVS)))
     return _ENVS[key]
+
+
+ALT_TOKENS = dict(ALT_ASSIGN)
 
 
 def valid_assignment(assign):
@@ -186,6 +191,15 @@ def judge(stats: Stats, assign, first, rest, doc, rng, origin):
     stats.ev()
     try:
         p = env.compile(text_c)
+        # other environments compile the same query in their own spellings before the string form is taken: what an
+        # environment prints must not depend on what other environments have compiled since
+        try:
+            jsonpath.DEFAULT_ENV.compile(text_d)
+            alt = make_env(ALT_ASSIGN)
+            rng.setstate(s_custom)
+            alt.compile(render(first, rest, ALT_TOKENS, rng))
+        except Exception:  # noqa: BLE001
+            pass
         s = str(p)
     except Exception as e:  # noqa: BLE001
         stats.fail("str-raised:%s" % type(e).__name__, case, repr(e))
